@@ -342,6 +342,67 @@ fn check_metrics<N, const K: usize>(t: &Tree<N, K>, a: &Adj, hist: &[Act], out: 
     }
 }
 
+/// The explored state is left behind in the arena by `add_root` and a new root with a chain of two nodes is put next
+/// to it. On such an arena the clauses that only speak about "the subtree of a node" keep their meaning for every
+/// node of both components: the three traversals from every start node return exactly that subtree in the documented
+/// order, `num_nodes(i)` is its size, `path_to_node(i)` is the label path from the top of i's component. The
+/// size_hint, index-order and whole-tree metric clauses are not applied here: they count the arena, which `add_root`
+/// documents to contain unreachable nodes.
+fn check_rerooted<const K: usize>(t0: &Tree<u8, K>, hist: &[Act], bound: usize, out: &mut CaseOut) {
+    let mut t = t0.clone();
+    let built = catch(|| {
+        let r = t.add_root(9u8);
+        let c = t.add_child_node(r, K - 1, 8u8).unwrap();
+        t.add_child_node(c, 0, 7u8).unwrap();
+        r
+    });
+    let rec = |a: Option<&Adj>| json!({"K": K, "history": hist.iter().map(|x| format!("{:?}", x)).collect::<Vec<_>>(), "then": "add_root; add_child_node(root, K-1); add_child_node(that, 0)", "nodes": a.map(|a| format!("{:?}", a.nodes))});
+    let root = match built {
+        Ok(r) => r,
+        Err(m) => {
+            out.violate(Violation::new(format!("add_root / add_child_node on an explored state panicked: {m}"), rec(None)).tag("kind", "rerooted").tag("what", "panic"));
+            return;
+        }
+    };
+    let a = adj(&t, bound + 3);
+    out.add("rerooted_states", 1);
+    if a.root != root || a.nodes.len() != t0.len() + 3 {
+        out.violate(Violation::new(format!("after add_root the root is {} (returned {root}) and the arena holds {} nodes, expected {}", a.root, a.nodes.len(), t0.len() + 3), rec(Some(&a))).tag("kind", "rerooted").tag("what", "arena"));
+        return;
+    }
+    let none = BTreeSet::new();
+    for &i in a.nodes.keys() {
+        for kind in [Kind::Pre, Kind::Edge, Kind::Level] {
+            out.add("traversal_runs", 1);
+            match real_run(&t, kind, i, &none, false, false) {
+                Err(m) => out.violate(Violation::new(format!("{kind:?} from node {i} of a re-rooted arena panicked: {m}"), rec(Some(&a))).tag("kind", "rerooted").tag("what", "panic")),
+                Ok((items, _)) => {
+                    let exp = reference(&a, kind, i, &none);
+                    if items != exp {
+                        out.violate(Violation::new(format!("{kind:?} from node {i} of a re-rooted arena: {items:?}, expected {exp:?}"), rec(Some(&a))).tag("kind", "rerooted").tag("what", format!("{kind:?}")));
+                    }
+                }
+            }
+        }
+        match catch(|| t.num_nodes(i)) {
+            Ok(n) if n == a.subtree(i).len() => {}
+            o => out.violate(Violation::new(format!("num_nodes({i}) on a re-rooted arena: {o:?}, the subtree has {} nodes", a.subtree(i).len()), rec(Some(&a))).tag("kind", "rerooted").tag("what", "num_nodes")),
+        }
+        let mut exp = vec![];
+        let mut cur = i;
+        while let Some(p) = a.nodes[&cur].0 {
+            let l = a.nodes[&p].1.iter().position(|c| *c == Some(cur)).unwrap();
+            exp.push((p, l));
+            cur = p;
+        }
+        exp.reverse();
+        match catch(|| t.path_to_node(i)) {
+            Ok(Ok(p)) if p == exp => {}
+            o => out.violate(Violation::new(format!("path_to_node({i}) on a re-rooted arena: {:?}, expected {exp:?}", o.map(|r| r.ok())), rec(Some(&a))).tag("kind", "rerooted").tag("what", "path_to_node")),
+        }
+    }
+}
+
 /// replay a history on an AffTree-valued arena (same index layout) and check PolyhedraIter::size_hint
 fn check_polyiter(hist: &[Act], out: &mut CaseOut) {
     let aff = || AffContent::new(AffFunc::from_mats(ndarray::arr2(&[[1.0]]), ndarray::arr1(&[0.0])));
@@ -426,6 +487,7 @@ fn run_k<const K: usize>(depth: usize, max_len: usize, max_plan: usize, rep: &mu
         out.add("states", 1);
         check_traversals(t, &a, hist, &mut out, max_plan);
         check_metrics(t, &a, hist, &mut out);
+        check_rerooted::<K>(t, hist, bound, &mut out);
         if K == 2 {
             check_polyiter(hist, &mut out);
         }
